@@ -57,8 +57,12 @@ pub fn until_next_unindented(input: &str, at_least_until: usize, fallback_len: u
         prev_was_newline = ch == '\n';
     }
 
-    // No match found, use fallback
-    input[..fallback_len].trim()
+    // No match found, use fallback. The excerpt keeps its leading line breaks, because its
+    // lines are numbered from its start, and it ends with the first complete line at or
+    // after `at_least_until`
+    let end = fallback_len.max(at_least_until);
+    let end = input[end..].find('\n').map_or(input.len(), |i| end + i);
+    input[..end].trim_end()
 }
 
 pub fn hex_to_bools(c: char) -> [bool; 4] {
